@@ -121,7 +121,7 @@ var sweepSwitch = map[string]string{
 
 func TestInspectReachesAll(t *testing.T) {
 	hx.Rule("inspect_reaches_all", "trees parsed from G-SQL statements; multiset of (type, content) of nodes ast.Inspect visits must equal the multiset of node-typed values reachable by reflection through every exported field; non-trivial = >= 3 distinct node types below statement level; distinct = node type set + size")
-	treeCheck.Rapid(t, hx.N(5000, 300000), func(rt *rapid.T) TreeCase {
+	treeCheck.Rapid(t, hx.N(100000, 1000000), func(rt *rapid.T) TreeCase {
 		g := sqlgen.New(rt, features())
 		st := sqlgen.Statement(g)
 		sql := sqlgen.SQL(st.Toks)
